@@ -174,3 +174,16 @@ def register(claim, na):
         "CrossHair/z3 symbolic execution of the real runner base classes from symbolic pre-states (inductive step) with counting stubs",
         "DESIGN.md §1 E3, §2 C14",
     )
+    claim(
+        "C15", "model_checking",
+        "CrossHair (z3) confirms over all paths, for every kind vector of <= 3 tasks over five task kinds and of exactly 4 tasks over three kinds "
+        "(measurable, constant operator, zero-shot with an identity part, ...), that estimate_expectation_values_by_averaging returns exactly one "
+        "result per task at the task's position (tagging stubs make the pairing observable), a constant operator yields exactly its constant, a "
+        "non-constant zero-shot task yields zero, and the runner is called once with exactly the measurable tasks in order; that "
+        "split_estimation_tasks_to_measure partitions the indices in order; and that evaluate_estimation_circuits binds task i with map i and "
+        "changes nothing else. Basis-state exactness is proved by z3 for a symbolic shot count n >= 1 (all shots on one outcome, width <= 3).",
+        "Runner/measurement objects are tagging stubs in the CrossHair harnesses; CUT-FMT; CrossHair verdicts other than 'Confirmed over all paths' "
+        "are inconclusive. The full pipeline on the real simulator and calculate_exact_expectation_values (scipy.sparse) are ground instances.",
+        "CrossHair/z3 symbolic execution over symbolic task-kind vectors + SymTrace for the symbolic shot count",
+        "DESIGN.md §1 E2/E3, §2 C15",
+    )
